@@ -164,7 +164,7 @@ def griddify_run(S, tmpl, k, fixed_idx):
 
 @contract(P, functions=[A + "griddify", "frame.geometry.geometry.gather_boundaries"], budget_s=600,
           scope="bounded: lattice templates of <= 3 cells (all coordinates symbolic)",
-          params=[dict(tmpl=t, fixed_idx=f) for t in QUICK for f in (-1, 0)])
+          params=[dict(tmpl=t, fixed_idx=f) for t in QUICK for f in range(-1, len(TEMPLATES[t][2]))])
 def griddify_alignment(S, tmpl, fixed_idx):
     E, X, Y, cells, a, out = griddify_run(S, tmpl, 1, fixed_idx)
     S.ensure("griddify.no_raise", out.ok)
